@@ -105,9 +105,24 @@ func (o *PubSub[T]) PubSliceSync(evs []T) {
 }
 
 func (o *PubSub[T]) send(ev T, sub chan T, timeout time.Duration, onTimeout func(T)) {
-	if !SendTimeout(sub, ev, timeout) && onTimeout != nil {
+	sent, unsubscribed := trySend(sub, ev, timeout)
+	if !sent && !unsubscribed && onTimeout != nil {
 		onTimeout(ev)
 	}
+}
+
+// trySend sends the event, but tolerates that the subscription was closed by
+// Unsub or UnsubAll in the meantime: the asynchronous sends of Pub, PubSlice,
+// PubWait and PubSliceWait run after the subscriber list has been unlocked, so
+// the channel may be closed while (or before) they send. Sending on a closed
+// channel panics; that panic means "subscriber is gone" and is not propagated.
+func trySend[T any](sub chan T, ev T, timeout time.Duration) (sent, unsubscribed bool) {
+	defer func() {
+		if recover() != nil {
+			sent, unsubscribed = false, true
+		}
+	}()
+	return SendTimeout(sub, ev, timeout), false
 }
 
 func (o *PubSub[T]) sendWaitGroup(ev T, sub chan T, timeout time.Duration, onTimeout func(T), wg *sync.WaitGroup) {
